@@ -46,6 +46,7 @@ pub fn all() -> Vec<Regression> {
         Regression { name: "D12-hinit-depends-on-dimension", property: "C13", what: "16 identical copies of a system with the automatic initial step take the same first step as the system itself", f: d12 },
         Regression { name: "D28-first-output-absolute-slack", property: "C03", what: "x0=1, span 1e-9, first_step=span/7, DOP853 rtol 1e-8 on a problem starting at rest: t must be strictly monotone", f: d28 },
         Regression { name: "D29-brent-sign-product-underflow", property: "C08", what: "g = 1e-170*(t-c) must be located at c", f: d29 },
+        Regression { name: "D30-bdf-initial-step-exponent", property: "C01", what: "BDF on y''=-y from x0 = 50.2 with rtol=1e-9, atol=1e-12 and the automatic initial step must reach xend", f: d30 },
         Regression { name: "D16-rk4-dense-order", property: "C07", what: "RK4 cubic Hermite dense output must be O(h^4) inside a step", f: d16 },
     ]
 }
@@ -589,6 +590,21 @@ fn d28() -> Result<(), String> {
     for w in s.t.windows(2) {
         if !(w[1] > w[0]) {
             return Err(format!("t not strictly increasing: {:e} then {:e}", w[0], w[1]));
+        }
+    }
+    Ok(())
+}
+
+fn d30() -> Result<(), String> {
+    let p = base(Base::Harmonic(1.0));
+    for (x0, dir) in [(50.2, 1.0), (50.2, -1.0), (-1000.0, 1.0)] {
+        let mut c = Cfg::new(Method::BDF, x0, x0 + dir * 2.0, &p.y0);
+        c.rtol = Tol::S(1e-9);
+        c.atol = Tol::S(1e-12);
+        let r = run(&p, &c);
+        let s = sol_of(&r)?;
+        if s.status != Status::Success || s.t.last().copied() != Some(x0 + dir * 2.0) {
+            return Err(format!("x0={} dir={}: status {:?}, {} samples, last t {:?}", x0, dir, s.status, s.t.len(), s.t.last()));
         }
     }
     Ok(())
